@@ -32,6 +32,7 @@ func checkC18(r *Report, p *Program) {
 	tombstonesAreValues(r, p, "R18.11")
 	fanOutReachesHandlers(r, p, "R18.12")
 	oneKeyPerSharedMap(r, p, "R18.13")
+	channelFieldsSetOnlyAtStart(r, p, "R18.14")
 }
 
 // lockDiscipline (A6): all accesses to the selected shared maps hold one common
